@@ -27,7 +27,11 @@ def IDS : List Nat := [8, 9]
 def ID_CANDS : List Nat := [8, 9, 10]
 def ACCOUNTS : List Nat := [11, 12, 13]
 def TOPICS : List Nat := [1, 2, 7]
-def SCHEMES : List Nat := [101, 102, 103]
+def SCHEMES : List Nat := [101, 102, 103, 111, 112, 113]
+/-- the verifier (algorithm) a scheme number of the harness issuer selects; 0 = none -/
+def algOf (scheme : Nat) : Nat :=
+  if scheme = 101 ∨ scheme = 111 then 101 else if scheme = 102 ∨ scheme = 112 then 102
+  else if scheme = 103 ∨ scheme = 113 then 103 else 0
 def KEYS : List Nat := [1, 2, 3, 4, 5, 6]
 def TS0 : Nat := 1700000000
 
@@ -39,7 +43,7 @@ structure SymSig where
   tag : Nat          -- names the (sig_data, data) byte strings in the dumps
   deriving Repr
 
-def symVerify : Verifier SymSig := fun scheme _pk m s => s.ok && s.ns == scheme && decide (s.msg = m)
+def symVerify : Verifier SymSig := fun scheme _pk m s => s.ok && s.ns == algOf scheme && decide (s.msg = m)
 
 /-! ### parsing -/
 
@@ -215,12 +219,14 @@ structure G where
   ident : List (Nat × Nat)                               -- account ↦ identity
   claims : List ((Nat × Nat × Nat) × GClaim)             -- (identity, id issuer, id topic) ↦ claim
   keys : List (Nat × Nat × Nat × Nat × Nat)              -- (issuer, key, scheme, topic, registry)
+  removed : List (Nat × Nat × Nat × Nat)                 -- (issuer, key, scheme, topic) whose last
+                                                         -- authorisation was taken back by remove_key
   nonce : List ((Nat × Nat × Nat) × Nat)                 -- (issuer, identity, topic) ↦ bumps
   revoked : List ((Nat × Nat × Nat × List Nat) × Bool)   -- (issuer, identity, topic, data) ↦ flag
   prev : String
 
 def G.init : G :=
-  { ts := TS0, cti := none, virs := false, req := [], trust := [], ident := [], claims := [], keys := [],
+  { ts := TS0, cti := none, virs := false, req := [], trust := [], ident := [], claims := [], keys := [], removed := [],
     nonce := [], revoked := [], prev := "" }
 
 def assocSet {κ ν : Type} [BEq κ] (l : List (κ × ν)) (k : κ) (v : ν) : List (κ × ν) :=
@@ -259,8 +265,14 @@ def G.update (g : G) (ws : List String) : G :=
       | some c => { g with claims := assocSet g.claims (n "d", n "ci", n "ct") c.toG }
       | none => g
     | "remove_claim" | "raw_del" => { g with claims := assocDel g.claims (n "d", n "ci", n "ct") }
-    | "allow_key" => { g with keys := (n "i", n "k", n "s", n "t", n "r") :: g.keys }
-    | "remove_key" => { g with keys := g.keys.filter (fun x => !(x == (n "i", n "k", n "s", n "t", n "r"))) }
+    | "allow_key" =>
+      { g with keys := (n "i", n "k", n "s", n "t", n "r") :: g.keys,
+               removed := g.removed.filter (fun x => !(x == (n "i", n "k", n "s", n "t"))) }
+    | "remove_key" =>
+      let keys' := g.keys.filter (fun x => !(x == (n "i", n "k", n "s", n "t", n "r")))
+      let left := keys'.any (fun x => x.1 == n "i" && x.2.1 == n "k" && x.2.2.1 == n "s" && x.2.2.2.1 == n "t")
+      { g with keys := keys',
+               removed := if left then g.removed else (n "i", n "k", n "s", n "t") :: g.removed }
     | "invalidate" =>
       { g with nonce := assocSet g.nonce (n "i", n "d", n "t") ((assocGet g.nonce (n "i", n "d", n "t")).getD 0 + 1) }
     | "revoke" =>
@@ -272,23 +284,30 @@ def G.update (g : G) (ws : List String) : G :=
   | _ => g
 
 def wellFormed (scheme sl : Nat) : Bool :=
-  (scheme = 101 ∧ sl = 96) ∨ (scheme = 102 ∧ sl = 129) ∨ (scheme = 103 ∧ sl = 133)
+  (algOf scheme = 101 ∧ sl = 96) ∨ (algOf scheme = 102 ∧ sl = 129) ∨ (algOf scheme = 103 ∧ sl = 133)
 
 def gValidUntil (data : List Nat) : Option Nat :=
   if data.length < 16 then none else some (((data.drop 8).take 8).foldl (fun a b => a * 256 + b) 0)
 
 /-- the property's second sentence: the issuer confirms a claim only if it is signed, over this
-network, issuer, identity, topic, current nonce and data, by a key currently allowed for the topic,
-and the claim is neither expired nor revoked -/
-def G.confirms (g : G) (i d t : Nat) (c : GClaim) : Bool :=
+network, issuer, identity, topic, current nonce and data, by a key currently allowed for the topic
+(the ghost key registry is keyed by (issuer, KEY, SCHEME, topic, registry): the same key bytes under
+another scheme number are another signing key), and the claim is neither expired nor revoked -/
+def G.keyAllowed (g : G) (i pk scheme t : Nat) : Bool :=
+  g.keys.any (fun x => x.1 == i && x.2.1 == pk && x.2.2.1 == scheme && x.2.2.2.1 == t)
+
+/-- every condition but "signed by a key currently allowed for the topic" -/
+def G.confirmsButKey (g : G) (i d t : Nat) (c : GClaim) : Bool :=
   ISSUERS.contains i
   && wellFormed c.scheme c.sl
-  && (c.sig.ok && c.sig.ns == c.scheme)
+  && (c.sig.ok && c.sig.ns == algOf c.scheme)
   && decide (c.sig.msg = { network := 0, issuer := i, identity := d, topic := t,
                            nonce := (assocGet g.nonce (i, d, t)).getD 0, data := c.data })
-  && g.keys.any (fun x => x.1 == i && x.2.1 == c.pk && x.2.2.1 == c.scheme && x.2.2.2.1 == t)
   && (match gValidUntil c.data with | some vu => decide (g.ts < vu) | none => false)
   && !((assocGet g.revoked (i, d, t, c.data)).getD false)
+
+def G.confirms (g : G) (i d t : Nat) (c : GClaim) : Bool :=
+  g.confirmsButKey i d t c && g.keyAllowed i c.pk c.scheme t
 
 def G.trustedFor (g : G) (r i t : Nat) : Bool :=
   match assocGet g.trust (r, i) with
@@ -321,10 +340,33 @@ def check (g : G) (opl obs : String) : G × Option String :=
   let kind := (ws.drop 1).head?.getD ""
   let ver := natList ((kv? ows "ver").getD "-")
   let exp := ACCOUNTS.map (fun a => if g1.verifies a then 1 else 0)
+  let validFail : Option String :=
+    if kind = "valid" then
+      match parseClaim (ws.drop 2) with
+      | some c =>
+        let d := (kvNat? ws "d").getD 0
+        let want := g1.confirms c.issuer d c.topic c.toG
+        if ok ∧ ¬ want then
+          if g1.confirmsButKey c.issuer d c.topic c.toG then
+            if g1.removed.contains (c.issuer, c.pk, c.scheme, c.topic) then
+              some s!"site=identity.issuer.key_removed_accepts issuer={c.issuer} key={c.pk} scheme={c.scheme} topic={c.topic}: is_claim_valid accepts a claim signed by a (key, scheme) whose authorisation for the topic was removed"
+            else
+              some s!"site=identity.issuer.key_not_allowed_accepts issuer={c.issuer} key={c.pk} scheme={c.scheme} topic={c.topic}: is_claim_valid accepts a claim signed by a (key, scheme) not allowed for the topic"
+          else
+            some s!"site=issuer.valid.accepts issuer={c.issuer}: is_claim_valid accepts a claim that is not (signed over network, issuer, identity, topic, current nonce, data by an allowed key, unexpired, unrevoked)"
+        else if ¬ ok ∧ want then
+          if g1.removed.any (fun x => x.1 == c.issuer && x.2.1 == c.pk && x.2.2.1 != c.scheme) then
+            some s!"site=identity.issuer.key_kept_rejects issuer={c.issuer} key={c.pk} scheme={c.scheme} topic={c.topic}: is_claim_valid rejects a claim signed by a (key, scheme) still allowed for the topic after the same key was removed under another scheme"
+          else
+            some s!"site=issuer.valid.rejects issuer={c.issuer}: is_claim_valid rejects a claim meeting every condition"
+        else none
+      | none => some "site=identity.parse unparsable claim"
+    else none
   let fail : Option String :=
     if ¬ ok ∧ g.prev ≠ "" ∧ kind ≠ "revoke" ∧ rest ≠ g.prev then
       some "site=identity.rollback a rejected operation changed an observable"
     else if ver.length ≠ ACCOUNTS.length then some s!"site=identity.parse unparsable observation"
+    else if validFail.isSome then validFail
     else
       match (ACCOUNTS.zip (ver.zip exp)).find? (fun x => x.2.1 ≠ x.2.2) with
       | some (a, got, _) =>
@@ -337,16 +379,6 @@ def check (g : G) (opl obs : String) : G × Option String :=
           let a := (kvNat? ws "a").getD 0
           if ok ≠ g1.verifies a then some s!"site=identity.verify.op account={a} outcome differs from the property's condition"
           else none
-        else if kind = "valid" then
-          match parseClaim (ws.drop 2) with
-          | some c =>
-            let want := g1.confirms c.issuer ((kvNat? ws "d").getD 0) c.topic c.toG
-            if ok ∧ ¬ want then
-              some s!"site=issuer.valid.accepts issuer={c.issuer}: is_claim_valid accepts a claim that is not (signed over network, issuer, identity, topic, current nonce, data by an allowed key, unexpired, unrevoked)"
-            else if ¬ ok ∧ want then
-              some s!"site=issuer.valid.rejects issuer={c.issuer}: is_claim_valid rejects a claim meeting every condition"
-            else none
-          | none => some "site=identity.parse unparsable claim"
         else if kind = "add_claim" ∧ ok then
           -- an identity built from `add_claim` stores only claims its issuer confirmed
           match parseClaim (ws.drop 2) with
